@@ -904,11 +904,79 @@ def _stored_in(stmts) -> Tuple[Set[str], Set[str]]:
     return names, attrs
 
 
+def _split_defs(f):
+    """A local bound several times whose every read lies, in the block of one of its bindings, after that binding and before the next one (a temporary
+    re-used in sibling branches or in consecutive steps) is several variables: each binding and the reads it reaches get their own name `x__dK`, which
+    makes them single-assignment temporaries."""
+    params = set(func_params(f))
+    counts: Dict[str, int] = {}
+    for n in ast.walk(f):
+        if isinstance(n, ast.Name) and isinstance(n.ctx, (ast.Store, ast.Del)):
+            counts[n.id] = counts.get(n.id, 0) + 1
+    special = {n_ for x in ast.walk(f) if isinstance(x, (ast.Global, ast.Nonlocal)) for n_ in x.names}
+    k = [0]
+    for x, c in sorted(counts.items()):
+        if c < 2 or x in params or x in special or "__d" in x:
+            continue
+        stores = [n for n in ast.walk(f) if isinstance(n, ast.Name) and n.id == x and isinstance(n.ctx, (ast.Store, ast.Del))]
+        loads = [n for n in ast.walk(f) if isinstance(n, ast.Name) and n.id == x and isinstance(n.ctx, ast.Load)]
+        if any(_in_closure(u, f) for u in loads):
+            continue
+        # every store must be the single Name target of a plain assignment statement sitting directly in a block
+        sites = []
+        ok = True
+        for st in stores:
+            a = getattr(st, "_parent", None)
+            if not (isinstance(a, ast.Assign) and len(a.targets) == 1 and a.targets[0] is st):
+                ok = False
+                break
+            blk = None
+            par = getattr(a, "_parent", None)
+            for fld in ("body", "orelse", "finalbody"):
+                b = getattr(par, fld, None)
+                if isinstance(b, list) and any(z is a for z in b):
+                    blk = b
+            if blk is None:
+                ok = False
+                break
+            sites.append((a, blk, [z is a for z in blk].index(True)))
+        if not ok:
+            continue
+        owner: Dict[int, int] = {}
+        for j, (a, blk, i) in enumerate(sites):
+            for st2 in blk[i + 1:]:
+                redefined_here = isinstance(st2, ast.Assign) and any(z is st2 for z, _, _ in sites)
+                for n in ast.walk(st2):
+                    if isinstance(n, ast.Name) and n.id == x:
+                        if isinstance(n.ctx, ast.Load):
+                            if id(n) in owner:
+                                ok = False
+                            owner[id(n)] = j
+                        elif not (redefined_here and n is st2.targets[0]):
+                            ok = False          # re-bound inside a nested statement after this binding
+                if redefined_here:
+                    break
+            # the right-hand side of a binding may read the previous value (x = g(x)): that read belongs to the previous binding and was seen above
+        if not ok or len(owner) != len(loads):
+            continue
+        # a binding inside a loop whose reads could see the previous iteration's value is excluded by construction (reads follow the binding in its block)
+        for j, (a, blk, i) in enumerate(sites):
+            k[0] += 1
+            new = f"{x}__d{k[0]}"
+            a.targets[0].id = new
+            for n in loads:
+                if owner[id(n)] == j:
+                    n.id = new
+    return f
+
+
 def substituted(fn, only=None):
     """V3 pass on an already normalised function: forward-substitute stable single-assignment temporaries
     (`only`: predicate on the defining expression, e.g. boolean-valued temporaries only)."""
     f = clone(fn)
     set_parents(f)
+    if only is None:
+        f = set_parents(_split_defs(f))
     params = set(func_params(f))
     changed = True
     rounds = 0
